@@ -456,6 +456,27 @@ _C14 = [
     {'module': 'boltons.strutils', 'qualname': 'parse_int_list', 'lean_name': 'parse_int_list',
      'params': {'range_string': 'Str', 'delim': 'Str', 'range_delim': 'Str'},
      'kind': 'function', 'result': 'List Int', 'raises': True, 'tie_theorem': 'C14.src_parse_int_list_eq_model'},
+    {'module': 'boltons.strutils', 'qualname': 'complement_int_list', 'lean_name': 'complement_int_list',
+     'params': {'range_string': 'Str', 'range_start': 'Int', 'range_end': 'Option Int', 'delim': 'Str',
+                'range_delim': 'Str'},
+     'kind': 'function', 'result': 'Str', 'raises': True, 'tie_theorem': 'C14.src_complement_int_list_eq_model'},
+    {'module': 'boltons.strutils', 'qualname': 'int_ranges_from_int_list', 'lean_name': 'int_ranges_from_int_list',
+     'params': {'range_string': 'Str', 'delim': 'Str', 'range_delim': 'Str'},
+     'kind': 'function', 'result': 'List (Int × Int)', 'raises': True,
+     'tie_theorem': 'C14.src_int_ranges_from_int_list_eq_model'},
+    {'module': 'boltons.strutils', 'qualname': 'args2sh', 'lean_name': 'args2sh',
+     'params': {'args': 'List Str', 'sep': 'Str'},
+     'kind': 'function', 'result': 'Str', 'raises': True, 'tie_theorem': 'C14.src_args2sh_eq_model'},
+]
+# `args2cmd` TRANSLATES and passes the translator self-test (iteration over the characters of a string, `str * int`,
+# nested loops, the flag read after the inner loop: rules `iter` / `mul` of py2lean_c14), but its tie theorem is not
+# proved yet (notes/SRCTIE.md section 1h): the spec is kept here, outside SPECS, so that the check does not list a
+# translated function without a theorem.  `PYTHONPATH=harness python -c "import py2lean_c14; py2lean_c14.selftest_pending()"`
+C14_PENDING = [
+    {'module': 'boltons.strutils', 'qualname': 'args2cmd', 'lean_name': 'args2cmd',
+     'params': {'args': 'List Str', 'sep': 'Str'},
+     'kind': 'function', 'result': 'Str', 'raises': True, 'tie_theorem': 'C14.src_args2cmd_eq_model',
+     'ext': 'py2lean_c14', 'gen_file': 'strutils_c14'},
 ]
 for _sp in _C14:
     _sp.update(ext='py2lean_c14', gen_file=_C14_GEN)
